@@ -558,3 +558,50 @@ V('C15', 'benign-zeroed-coinbase-by-display', CORE, "        hashes[0] = b'\\x00
 V('C15', 'coinbase-entry-is-31-zero-bytes', CORE, "        hashes[0] = b'\\x00' * 32\n        return CBlock.build_merkle_tree_from_txids(hashes)", "        return CBlock.build_merkle_tree_from_txids([b'\\x00' * 31, *hashes[1:]])", 'C15.M1',
   scope='CBlock.build_witness_merkle_tree_from_txs')
 V('C13', 'benign-undecodable-der-test-twice', KEY, "        if not norm_sig:\n            return False", "        if not norm_sig or norm_sig.value is None:\n            return False", 'SILENT', scope='CECKey.verify')
+
+# ------------------------------------------------------------------------------------------------ rules that came out of the mutation campaign (DELTA, TOKEN, defaults, refusals, round trips)
+# (expect='UNDECIDED:<rule>': the family cannot judge the edit; the named rule must say so and nothing may claim a violation)
+V('C19', 'request-no-longer-sent', RPC, "        r = self._call('getbalance', account, minconf, include_watchonly)", "        pass", 'C19.Q1', scope='Proxy.getbalance')
+V('C19', 'converted-reply-dropped', RPC, "        return r\n\n    def getmininginfo", "        pass\n\n    def getmininginfo", ['C19.Q1'], scope=None)
+V('C19', 'verbose-header-by-default', RPC, "def getblockheader(self, block_hash, verbose=False):", "def getblockheader(self, block_hash, verbose=True):", 'UNDECIDED:C19.Z3')
+V('C16', 'duplicate-test-refuses-nothing', CORE, '            raise CheckBlockError("CheckBlock() : duplicate transaction")', '            pass', 'C16.B1', scope='CheckBlock')
+V('C16', 'pow-off-by-default', CORE, "def CheckBlock(block, fCheckPoW = True, fCheckMerkleRoot = True, cur_time=None):", "def CheckBlock(block, fCheckPoW = False, fCheckMerkleRoot = True, cur_time=None):", 'C16.B1')
+V('C16', 'sigop-total-starts-at-one', CORE, "    nSigOps = 0\n    for i, tx in enumerate(block.vtx):", "    nSigOps = 1\n    for i, tx in enumerate(block.vtx):", 'C16.B1', scope='CheckBlock')
+V('C16', 'commitment-of-39-bytes-refused', CORE, "if not (6 + 32 <= len(commit_script) <= 6 + 32 + 1):", "if not (6 + 32 <= len(commit_script) < 6 + 32 + 1):", 'C16.B1', scope='CheckBlock')
+V('C16', 'commitment-of-40-bytes-accepted', CORE, "if not (6 + 32 <= len(commit_script) <= 6 + 32 + 1):", "if not (6 + 32 <= len(commit_script) <= 6 + 32 + 2):", 'UNDECIDED:C16.B1', scope='CheckBlock')
+V('C16', 'missing-commitment-swallowed', CORE, '                raise CheckBlockError("CheckBlock() : " + str(e))', '                pass', 'C16.B1', scope='CheckBlock')
+V('C06', 'ifdup-reads-the-bottom', EVAL, "                vch = stack[-1]\n                if _CastToBool(vch):", "                vch = stack[-0]\n                if _CastToBool(vch):", 'C06.I1', scope='_EvalScript')
+V('C06', 'ripemd-block-starts-early', RIPEMD, "state = compress(*state, data[64*b:64*(b+1)])", "state = compress(*state, data[63*b:64*(b+1)])", 'C06.H1', scope='ripemd160')
+V('C12', 'builder-asserts-nonzero-version', WALLET, "        assert self.witver == 0\n        return script.CScript([0, self])\n\n    def to_redeemScript(self):\n        raise NotImplementedError",
+  "        assert self.witver != 0\n        return script.CScript([0, self])\n\n    def to_redeemScript(self):\n        raise NotImplementedError", 'C12.T1')
+V('C12', 'missing-version-not-resolved', WALLET, "        if nVersion is None:\n            nVersion = bitcoin.params.BASE58_PREFIXES['SCRIPT_ADDR']", "        if nVersion is not None:\n            nVersion = bitcoin.params.BASE58_PREFIXES['SCRIPT_ADDR']", 'C12.T1',
+  scope='P2SHBitcoinAddress.from_bytes')
+V('C12', 'nested-program-slice-early', WALLET, "return cls.from_bytes(scriptPubKey[3:23], bitcoin.params.BASE58_PREFIXES['PUBKEY_ADDR'])\n        elif (len(scriptPubKey) == 25",
+  "return cls.from_bytes(scriptPubKey[2:23], bitcoin.params.BASE58_PREFIXES['PUBKEY_ADDR'])\n        elif (len(scriptPubKey) == 25", 'C12.T1', scope='P2PKHBitcoinAddress.from_scriptPubKey')
+V('C12', 'benign-slice-bound-beyond-the-end', WALLET, "return cls.from_bytes(scriptPubKey[2:22], bitcoin.params.BASE58_PREFIXES['PUBKEY_ADDR'])", "return cls.from_bytes(scriptPubKey[2:23], bitcoin.params.BASE58_PREFIXES['PUBKEY_ADDR'])",
+  'UNDECIDED:C12.Z3', scope='P2PKHBitcoinAddress.from_scriptPubKey')
+V('C01', 'witness-dropped-by-default', CORE, "    def stream_serialize(self, f, include_witness=True):\n        f.write(struct.pack(b\"<i\", self.nVersion))\n        if include_witness",
+  "    def stream_serialize(self, f, include_witness=False):\n        f.write(struct.pack(b\"<i\", self.nVersion))\n        if include_witness", 'C01.F1')
+V('C01', 'default-previous-hash-31-bytes', CORE, "def __init__(self, nVersion=2, hashPrevBlock=b'\\x00'*32, hashMerkleRoot=b'\\x00'*32, nTime=0, nBits=0, nNonce=0):",
+  "def __init__(self, nVersion=2, hashPrevBlock=b'\\x00'*31, hashMerkleRoot=b'\\x00'*32, nTime=0, nBits=0, nNonce=0):", 'C01.F1')
+V('C13', 'uncompressed-by-default', WALLET, "    def __init__(self, secret, compressed=True):", "    def __init__(self, secret, compressed=False):", 'C13.F1')
+V('C15', 'witness-root-second-to-last', CORE, "return self.build_witness_merkle_tree_from_txs(self.vtx)[-1]", "return self.build_witness_merkle_tree_from_txs(self.vtx)[-2]", 'C15.M1', scope='CBlock.calc_witness_merkle_root')
+V('C15', 'weight-needs-two-outputs', CORE, "        assert len(self.vout) > 0", "        assert len(self.vout) > 1", 'C15.W1', scope='CTransaction.calc_weight')
+V('C15', 'benign-weight-precondition-weaker', CORE, "        assert len(self.vout) > 0", "        assert len(self.vout) >= 0", 'UNDECIDED:C15.Z3', scope='CTransaction.calc_weight')
+V('C08', 'sigop-count-starts-at-one', SCRIPT, "        n = 0\n        lastOpcode = OP_INVALIDOPCODE", "        n = 1\n        lastOpcode = OP_INVALIDOPCODE", 'C08.S1', scope='CScript.GetSigOpCount')
+V('C08', 'previous-opcode-not-initialised', SCRIPT, "        n = 0\n        lastOpcode = OP_INVALIDOPCODE", "        n = 0\n        pass", 'C08.S1', scope='CScript.GetSigOpCount')
+V('C18', 'stream-form-writes-nothing', MSG, "        data = self.to_bytes()\n        f.write(data)", "        data = self.to_bytes()\n        pass", 'C18.V1', scope='MsgSerializable.stream_serialize')
+V('C18', 'legacy-version-fixup-off-by-one', MSG, "        if c.nVersion == 10300:\n            c.nVersion = 300", "        if c.nVersion == 10300:\n            c.nVersion = 301", 'C18.V1', scope='msg_version.msg_deser')
+V('C18', 'relay-byte-read-with-size-two', MSG, 'c.fRelay = struct.unpack(b"<B", ser_read(f,1))[0]', 'c.fRelay = struct.unpack(b"<B", ser_read(f,2))[0]', 'C18.V1', scope='msg_version.msg_deser')
+V('C18', 'absent-nonce-keeps-constructor-value', MSG, "            c.addrFrom = None\n            c.nNonce = None", "            c.addrFrom = None\n            pass", 'C18.V1', scope='msg_version.msg_deser')
+V('C20', 'rotation-refuses-the-all-ones-word', BLOOM, "    assert x <= 0xFFFFFFFF", "    assert x < 0xFFFFFFFF", 'C20.K1', scope='_ROTL32')
+V('C20', 'benign-rotation-domain-wider', BLOOM, "    assert x <= 0xFFFFFFFF", "    assert x <= 0x1FFFFFFFF", 'UNDECIDED:C20.Z3', scope='_ROTL32')
+V('C20', 'bits-to-bytes-by-nine', BLOOM, "self.MAX_BLOOM_FILTER_SIZE * 8) / 8))", "self.MAX_BLOOM_FILTER_SIZE * 8) / 9))", 'C20.K1', scope='CBloomFilter.__init__')
+V('C20', 'full-filter-answers-false', BLOOM, "        if len(self.vData) == 1 and self.vData[0] == 0xff:\n            return True", "        if len(self.vData) == 1 and self.vData[0] == 0xff:\n            return False", 'C20.N1', scope='CBloomFilter.contains')
+V('C09', 'copy-helper-returns-nothing', CORE, "            return cls(txout.nValue, txout.scriptPubKey)", "            pass", ['C09.R6', 'C02.F2'], scope='CTxOut.from_txout')
+V('C09', 'none-default-stored', CORE, "        if vout is None:\n            vout = []\n        self.vout = vout", "        if vout is None:\n            pass\n        self.vout = vout", 'C09.R7', scope='CMutableTransaction.__init__')
+V('C07', 'captured-stack-not-kept', EVAL, "        self.stack = stack\n", "        pass\n", 'C07.A1', scope='EvalScriptError.__init__')
+V('C07', 'benign-captured-opcode-not-kept', EVAL, "        self.sop = sop\n", "        pass\n", 'UNDECIDED:C07.Z2', scope='EvalScriptError.__init__')
+V('C07', 'op-limit-error-drops-its-state', EVAL, "        super(MaxOpCountError, self).__init__('max opcode count exceeded',**kwargs)", "        pass", 'C07.A1', scope='MaxOpCountError.__init__')
+V('C14', 'recovery-keeps-going-on-a-bad-point', KEY, "            if not _ssl.EC_POINT_set_compressed_coordinates_GFp(group, R, x, recid % 2, ctx):\n                return 0", "            if not _ssl.EC_POINT_set_compressed_coordinates_GFp(group, R, x, recid % 2, ctx):\n                pass",
+  'UNDECIDED:C14.Z2', scope='CECKey.recover')
